@@ -228,7 +228,7 @@ def callers_of(project, func):
     for f in project.py_funcs():
         for c in own_calls(f.node):
             tgt = _resolve_function(project, f, c.func)
-            if tgt is func:
+            if tgt is func or (tgt is not None and tgt.qual == func.qual):      # (func may be a spliced copy)
                 out.append((f, c))
     return out
 
